@@ -18,7 +18,7 @@ TInit == CInit /\ table = [progs |-> <<>>, follow |-> <<>>, legacy |-> FALSE]
          /\ TLCSet(1, 1) /\ TLCSet(2, 0) /\ TLCSet(3, 0) /\ TLCSet(4, 0)
 
 Reset ==
-  /\ cmds' = (CORE :> CoreCmd) /\ tasks' = <<>> /\ ready' = {} /\ run' = NONE /\ reqs' = <<>>
+  /\ cmds' = (CORE :> CoreCmd) /\ tasks' = <<>> /\ ready' = {} /\ run' = NONE /\ reqs' = NoReqs
   /\ joinreg' = <<>> /\ rq' = (CORE :> <<>>) /\ sq' = (CORE :> <<>>)
   /\ modelLog' = <<>> /\ phase' = "idle" /\ registry' = <<>>
 
